@@ -318,3 +318,6 @@ def run(fx, rep, tier):
     r2_impl_pairs(facts, rep)
     r3_attrs(facts, rep)
     r4_shipped(facts, rep, statics)
+    # the sources file is shipped data too: a decoded source list must keep the id -> position map it was built with
+    from . import c16
+    c16.r9_sources(facts, rep, rule="C17-R5")
